@@ -122,7 +122,8 @@ structure Node where
   kind : Kind
   ver : Nat            -- scripts: the version they report is <ver>.0.0; files: content tag; 0 for directories
   target : Text        -- symbolic links: where they point (absolute, in the same world); "" otherwise.
-                       -- The code under test never writes through a link, so the model does not use it;
+                       -- The code under test never writes through a link below `<root>/<name>`; the model uses
+                       -- the target only to find the directory a plugin root IS when links lie on its way (`physRoot`);
                        -- the harness needs it to build the world and to see writes through links.
   deriving DecidableEq, Repr, FromJson, ToJson
 
@@ -134,7 +135,8 @@ inductive Step | install | uninstall | get | touchSrc | dropSrc
 
 structure Input where
   op : Op
-  root : Text          -- the plugin root handed to `dir.NewSysFS` (may be unclean: "//", "/./", "x/..", trailing "/")
+  root : Text          -- the plugin root handed to `dir.NewSysFS` (may be unclean: "//", "/./", "x/..", trailing "/");
+                       -- it, or an ancestor, may be a symbolic link of the world `fs` (round 8): see `physRoot`
   name : Text          -- get / uninstall: the name; verify: the signature's attribute value; install: informative only
   src : Text           -- install: `CLIInstallOptions.PluginPath`; otherwise ""
   overwrite : Bool     -- install: `CLIInstallOptions.Overwrite`
@@ -439,9 +441,46 @@ the kernel's resolution of the cleaned result when no symbolic link is on the wa
 manager does with `root` it does with `Join(cwd, root)` -/
 def absRoot (i : Input) : Text := if isRooted i.root then i.root else join [i.cwd, i.root]
 
+/-! ### a plugin root reached through symbolic links
+
+`dir.NewSysFS(root)` is handed a path; which directory that path IS, the kernel decides: a symbolic
+link on the way - the root itself (`~/.config/notation/plugins -> /vol/x/plugins`), one of its
+ancestors, a chain of links - is followed by every system call the manager makes with a path
+BELOW the root (`os.Stat`, `exec`, `os.RemoveAll`, `os.MkdirAll` of `<root>/<name>/...`) and by
+`os.DirFS(root)` for the root itself. The plugin directory the property talks about is therefore the
+PHYSICAL root: the model walks the (lexically cleaned) root through the links of the world. -/
+
+def Kind.isLink : Kind → Bool | .symdir | .symfile | .symexec | .symnone => true | _ => false
+
+/-- the absolute path with these components -/
+def pathOf (cs : List Text) : Text := '/' :: joinSlash cs
+
+/-- the kernel's walk: `done` is resolved, `todo` still to come; a link met on the way is replaced by
+its (absolute) target. `followed`: a link was met. `none`: no link on the way (the path is its own
+resolution) or the fuel ran out (more links than the world has: a loop, which the kernel refuses too). -/
+def walk (fs : List Node) : Nat → List Text → List Text → Bool → Option (List Text)
+  | 0, _, _, _ => none
+  | _ + 1, done, [], followed => if followed then some done else none
+  | fuel + 1, done, c :: rest, followed =>
+    match lookup fs (pathOf (done ++ [c])) with
+    | some n =>
+      if n.kind.isLink then walk fs fuel [] (comps n.target ++ rest) true
+      else walk fs fuel (done ++ [c]) rest followed
+    | none => walk fs fuel (done ++ [c]) rest followed
+
+/-- enough for every link of the world to be followed once -/
+def walkFuel (fs : List Node) (cs : List Text) : Nat :=
+  cs.length + (fs.map (fun n => (comps n.target).length + 1)).sum + 1
+
+/-- the directory an absolute plugin root is: itself when no link is on the way -/
+def physRoot (fs : List Node) (root : Text) : Text :=
+  match walk fs (walkFuel fs (rootComps root)) [] (rootComps root) false with
+  | some cs => pathOf cs
+  | none => root
+
 /-- the input the observed operation effectively sees -/
 def eff (i : Input) : Input :=
-  let j := { i with root := absRoot i, peers := [] }
+  let j := { i with root := physRoot i.fs (absRoot i), peers := [] }
   { j with fs := stateAfter j j.history, history := [] }
 
 def run (i : Input) : Obs := runOp (eff i)
